@@ -161,6 +161,12 @@ def c_fold(op, a, ta, b, tb):
         if y == 0 or x % y != 0:
             return ("reject",)
         return ("value", c_convert(x // y, t), t)
+    if op == "%":
+        # C11 6.5.5p6: the quotient truncates toward zero, the remainder has the sign of the dividend
+        if y == 0:
+            return ("reject",)
+        q = abs(x) // abs(y) * (1 if (x < 0) == (y < 0) else -1)
+        return ("value", c_convert(x - q * y, t), t)
     v = {"+": x + y, "-": x - y, "*": x * y}[op]
     return ("value", c_convert(v, t), t)
 
